@@ -584,6 +584,19 @@ var c17WildLines = []string{
 	":x!y@z JOIN #c", ":%N!u@h JOIN #c", ":irc.example 352 %N #c u h s %O H :0 name", "", " ", ":", "::", "\x00",
 }
 
+// does the line carry one of the verbs of stHandlers other than NICK (which the model covers)?
+func c17StateVerb(l string) bool {
+	ln := client.ParseLine(strings.Trim(l+"\r\n", "\r\n"))
+	if ln == nil {
+		return false
+	}
+	switch ln.Cmd {
+	case "JOIN", "KICK", "MODE", "PART", "QUIT", "TOPIC", "311", "324", "332", "352", "353", "671":
+		return true
+	}
+	return false
+}
+
 func c17Random(r *Rand) Fields {
 	nick := r.Pick([]string{"bob", "bob", "nick9", "a", "x}", "Zed~", "longernickname", "b"})
 	if r.Chance(4) {
@@ -626,6 +639,12 @@ func c17Random(r *Rand) Fields {
 				oth = m.sv.others[r.Intn(len(m.sv.others))]
 			}
 			l = strings.ReplaceAll(strings.ReplaceAll(l, "%N", cur), "%O", oth)
+			if track && c17StateVerb(l) {
+				// with tracking on h_JOIN / h_MODE / h_311 / h_352 ... call conn.Me(), which refreshes
+				// cfg.Me from the tracker, and they change the tracker: outside Model/NickHandlers.v
+				// (that interplay is Model/Client.v, compared in ./check C02 kind "transcript")
+				l = ":irc.example NOTICE * :noise"
+			}
 			if r.Chance(30) {
 				// a non-enabled semantic event (skipped by the server, flags the script)
 				e = c17PickEv(r, []c17Ev{{"confirm", "", ""}, {"coll", "", ""}, {"welsame", "", ""}, {"force", oth, ""}, {"other", cur, "q"}, {"new", cur, ""}, {"weldiff", oth, ""}, {"track", "nobody", ""}})
